@@ -198,7 +198,9 @@ func dumpFunc(w *World, name string) {
 				fmt.Printf("   [%s] %s\n", w.LK.DepthString(ins), line)
 				if _, ok := ins.(*ssa.Phi); !ok {
 					if c := callInstrCommon(ins); c != nil || isInteresting(ins) {
-						fmt.Printf("        facts: %s\n", st)
+						if os.Getenv("DUMP_FACTS") != "0" {
+							fmt.Printf("        facts: %s\n", st)
+						}
 						for _, e := range w.CG.SiteOut[ins] {
 							fmt.Printf("        -> %s (%s cb=%v)\n", shortFuncName(e.Callee), e.Mode, e.Callback)
 						}
